@@ -179,7 +179,10 @@ def rule_main_gate(ctx: Ctx, repo: Repo) -> None:
     flush = repo.method(ci, "flush")
     ctx.functions.update({log.fq, flush.fq})
     tparam = log.positional_params()[1]
-    for modname in ("__main__", "app.models", "__main__.sub", "main"):
+    INT_T, NONE_TT = S("class:builtins.int"), S("class:builtins.NoneType")
+    # what was observed: nothing at all (a parameterless call that raised) up to everything
+    shapes = [((), K(None), K(None)), ((), NONE_TT, K(None)), ((), K(None), INT_T), (((K("a"), INT_T),), K(None), K(None)), (((K("a"), INT_T),), INT_T, INT_T)]
+    for modname, (argt, rett, yldt) in [(m_, sh_) for m_ in ("__main__", "app.models", "__main__.sub", "main") for sh_ in shapes]:
         ri = RepoInterp(repo, log, call_hook=None)
         effects: List[Any] = []
 
@@ -196,7 +199,8 @@ def rule_main_gate(ctx: Ctx, repo: Repo) -> None:
 
         ri.interp.on_attr = on_attr
         ri.call_hook = hook
-        trace = R("trace", func=R("func", __module__=K(modname)))
+        trace = R("trace", func=R("func", __module__=K(modname), __qualname__=K("f"), __name__=K("f")), arg_types=R("dict", items=argt), return_type=rett, yield_type=yldt)
+        shape_txt = f"{len(argt)} argument type(s), return {'absent' if rett == K(None) else 'present'}, yield {'absent' if yldt == K(None) else 'present'}"
         outs = ri.run({"self": S("self"), tparam: trace})
         if len(outs) != 1:
             raise AnalysisError("CallTraceStoreLogger.log forked")
@@ -209,8 +213,8 @@ def rule_main_gate(ctx: Ctx, repo: Repo) -> None:
                       construct=f"module {modname!r}: {[(e[0], e[1]) for e in stores + store_calls]} {setattrs}")
         else:
             ctx.check(len(stores) == 1 and stores[0][1] == "append" and stores[0][2] == (trace,) and not store_calls, "R-C17.2", log.fq,
-                      "every other trace is appended to the pending batch exactly once",
-                      construct=f"module {modname!r}: {[(e[0], e[1]) for e in stores + store_calls]}")
+                      "every other trace is appended to the pending batch exactly once, whatever was observed for the call (a call that raised, took no arguments and yielded nothing is a call all the same)",
+                      construct=f"module {modname!r}, {shape_txt}: {[(e[0], e[1]) for e in stores + store_calls]}")
     # flush: store.add(self.traces) once, then reset to an empty list
     ri = RepoInterp(repo, flush)
     effects2: List[Any] = []
